@@ -1,8 +1,426 @@
+import PyGam.Model.TermAlgebra
 import PyGam.Drv.Common
-namespace PyGam.Drv.C14
-open PyGam PyGam.Drv
+/-!
+# C14 driver: a small register machine over the structural model `PyGam.TA`
 
-/-- operations of the C14 model driver (`C14 <op> <args…>`); `none` ↦ `bad-op` -/
+`C14 run <instr> ; <instr> ; …` executes a *history* on an environment of objects (terms, term lists,
+GAMs; value semantics) and prints one observation per instruction, separated by ` ; `.  Execution stops after the
+first instruction that raises (its observation is `err:<Class>`).
+
+```
+sc     := N | T | F | i<int> | q<num>[/<den>] | s:<text>
+tree   := sc | "[" tree* "]"
+kw     := <n> (<name> tree)^n
+arg    := r<idx> | f<sc> | x            (register, feature index, a non-term object)
+instr  := atom <I|L|S|F> kw                        push Intercept/LinearTerm/SplineTerm/FactorTerm(**kw)
+        | te <n> arg^n <by:tree> <verbose:tree> kw push TensorTerm(*args, by=, verbose=, **kw)
+        | tl <T|F> <n> arg^n                       push TermList(*args, verbose=)
+        | add arg arg                              push a + b
+        | gam <r<idx>|auto|none> <T|F> <T|F> kw    push GAM(terms, fit_intercept, verbose, **kw)
+        | get r<idx> <name> | set r<idx> <name> tree
+        | getp r<idx> <T|F> | setp r<idx> <deep> <force> kw
+        | info r<idx> | rebuild r<idx> | copy r<idx> | validate r<idx>
+        | fit r<idx> <m> (<lo> <hi> <nuniq>)^m | compile r<idx> <m> (…)^m
+```
+Other operations (`C14 dedup …`, `C14 size …`) expose single model functions.
+-/
+namespace PyGam.Drv.C14
+open PyGam PyGam.Drv PyGam.TA
+
+abbrev P (β : Type) := List String → Option (β × List String)
+
+def pNat : P Nat
+  | s :: r => s.toNat?.map (·, r)
+  | [] => none
+
+def pBool : P Bool
+  | "T" :: r => some (true, r)
+  | "F" :: r => some (false, r)
+  | _ => none
+
+def pName : P String
+  | s :: r => some (s, r)
+  | [] => none
+
+def pRepeat {β : Type} (p : P β) : Nat → P (List β)
+  | 0, r => some ([], r)
+  | k+1, r => do
+      let (x, r) ← p r
+      let (xs, r) ← pRepeat p k r
+      some (x :: xs, r)
+
+def pCounted {β : Type} (p : P β) : P (List β) := fun r => do
+  let (k, r) ← pNat r
+  pRepeat p k r
+
+def parseSc (s : String) : Option Sc :=
+  if s = "N" then some .none
+  else if s = "T" then some (.bool true)
+  else if s = "F" then some (.bool false)
+  else if s.startsWith "i" then (s.drop 1).toInt?.map .int
+  else if s.startsWith "q" then (parseRat? (s.drop 1).toString).map .flt
+  else if s.startsWith "s:" then some (.str (s.drop 2).toString)
+  else none
+
+mutual
+def pTreeF : Nat → P Tree
+  | 0, _ => none
+  | _, [] => none
+  | fuel + 1, tok :: r =>
+    if tok = "[" then pItemsF fuel r
+    else if tok = "]" then none
+    else (parseSc tok).map (fun s => (.leaf s, r))
+def pItemsF : Nat → P Tree
+  | 0, _ => none
+  | _, [] => none
+  | fuel + 1, tok :: r =>
+    if tok = "]" then some (.node [], r)
+    else do
+      let (t, r) ← pTreeF fuel (tok :: r)
+      let (rest, r) ← pItemsF fuel r
+      match rest with
+      | .node l => some (.node (t :: l), r)
+      | .leaf _ => none
+end
+
+def pTree : P Tree := fun r => pTreeF (r.length + 1) r
+
+def pKwItem : P (String × Tree) := fun r => do
+  let (k, r) ← pName r
+  let (v, r) ← pTree r
+  some ((k, v), r)
+
+def pKw : P (List (String × Tree)) := pCounted pKwItem
+
+inductive Arg | reg (i : Nat) | feat (s : Sc) | junk
+
+def pArg : P Arg
+  | "x" :: r => some (.junk, r)
+  | s :: r =>
+    if s.startsWith "r" then (s.drop 1).toNat?.map (fun i => (.reg i, r))
+    else if s.startsWith "f" then (parseSc (s.drop 1).toString).map (fun v => (.feat v, r))
+    else none
+  | [] => none
+
+def pReg : P Nat
+  | s :: r => if s.startsWith "r" then (s.drop 1).toNat?.map (·, r) else none
+  | [] => none
+
+def pFeat : P FeatData := fun r => do
+  let (lo, r) ← (match r with | s :: r => (parseRat? s).map (·, r) | [] => none)
+  let (hi, r) ← (match r with | s :: r => (parseRat? s).map (·, r) | [] => none)
+  let (n, r) ← pNat r
+  some ({ lo := lo, hi := hi, nuniq := n }, r)
+
+inductive GTerms | reg (i : Nat) | auto | none
+
+inductive Instr
+  | atom (k : Kind) (kw : List (String × Tree))
+  | te (args : List Arg) (by_ verbose : Tree) (kw : List (String × Tree))
+  | tl (verbose : Bool) (args : List Arg)
+  | add (a b : Arg)
+  | gam (t : GTerms) (fi verbose : Bool) (kw : List (String × Tree))
+  | get (r : Nat) (name : String)
+  | set (r : Nat) (name : String) (v : Tree)
+  | getp (r : Nat) (deep : Bool)
+  | setp (r : Nat) (deep force : Bool) (kw : List (String × Tree))
+  | info (r : Nat)
+  | rebuild (r : Nat)
+  | copy (r : Nat)
+  | validate (r : Nat)
+  | fit (r : Nat) (data : List FeatData)
+  | compile (r : Nat) (data : List FeatData)
+
+def pKind : P Kind
+  | "I" :: r => some (.intercept, r)
+  | "L" :: r => some (.linear, r)
+  | "S" :: r => some (.spline, r)
+  | "F" :: r => some (.factor, r)
+  | _ => none
+
+def pInstr : P Instr
+  | "atom" :: r => do
+      let (k, r) ← pKind r
+      let (kw, r) ← pKw r
+      some (.atom k kw, r)
+  | "te" :: r => do
+      let (args, r) ← pCounted pArg r
+      let (b, r) ← pTree r
+      let (v, r) ← pTree r
+      let (kw, r) ← pKw r
+      some (.te args b v kw, r)
+  | "tl" :: r => do
+      let (v, r) ← pBool r
+      let (args, r) ← pCounted pArg r
+      some (.tl v args, r)
+  | "add" :: r => do
+      let (a, r) ← pArg r
+      let (b, r) ← pArg r
+      some (.add a b, r)
+  | "gam" :: r => do
+      let (t, r) ← (match r with
+        | "auto" :: r => some (GTerms.auto, r)
+        | "none" :: r => some (GTerms.none, r)
+        | r => (pReg r).map (fun p => (GTerms.reg p.1, p.2)))
+      let (fi, r) ← pBool r
+      let (v, r) ← pBool r
+      let (kw, r) ← pKw r
+      some (.gam t fi v kw, r)
+  | "get" :: r => do
+      let (i, r) ← pReg r
+      let (n, r) ← pName r
+      some (.get i n, r)
+  | "set" :: r => do
+      let (i, r) ← pReg r
+      let (n, r) ← pName r
+      let (v, r) ← pTree r
+      some (.set i n v, r)
+  | "getp" :: r => do
+      let (i, r) ← pReg r
+      let (d, r) ← pBool r
+      some (.getp i d, r)
+  | "setp" :: r => do
+      let (i, r) ← pReg r
+      let (d, r) ← pBool r
+      let (f, r) ← pBool r
+      let (kw, r) ← pKw r
+      some (.setp i d f kw, r)
+  | "info" :: r => do let (i, r) ← pReg r; some (.info i, r)
+  | "rebuild" :: r => do let (i, r) ← pReg r; some (.rebuild i, r)
+  | "copy" :: r => do let (i, r) ← pReg r; some (.copy i, r)
+  | "validate" :: r => do let (i, r) ← pReg r; some (.validate i, r)
+  | "fit" :: r => do
+      let (i, r) ← pReg r
+      let (d, r) ← pCounted pFeat r
+      some (.fit i d, r)
+  | "compile" :: r => do
+      let (i, r) ← pReg r
+      let (d, r) ← pCounted pFeat r
+      some (.compile i d, r)
+  | _ => none
+
+/-- `instr ; instr ; …` -/
+def pProgram : Nat → List String → Option (List Instr)
+  | _, [] => some []
+  | 0, _ => none
+  | fuel + 1, r => do
+      let (i, r) ← pInstr r
+      match r with
+      | [] => some [i]
+      | ";" :: r => do
+          let rest ← pProgram fuel r
+          some (i :: rest)
+      | _ => none
+
+/-! ## canonical printing -/
+
+def showSc : Sc → String
+  | .none => "N"
+  | .bool true => "T"
+  | .bool false => "F"
+  | .int i => "i" ++ toString i
+  | .flt q => "q" ++ showRat q
+  | .str s => "s:" ++ s
+
+mutual
+def showTree : Tree → String
+  | .leaf s => showSc s
+  | .node l => "[ " ++ showTrees l ++ "]"
+def showTrees : List Tree → String
+  | [] => ""
+  | t :: ts => showTree t ++ " " ++ showTrees ts
+end
+
+def showVal (v : Val) : String := showTree v.toTree
+
+def showErr : Err → String
+  | .value => "err:ValueError"
+  | .type => "err:TypeError"
+  | .attribute => "err:AttributeError"
+  | .index => "err:IndexError"
+  | .key => "err:KeyError"
+  | .unsupported => "err:unsupported"
+
+/-- entries sorted by name -/
+def showEntries (l : List (String × String)) : String :=
+  let s := l.mergeSort (fun a b => a.1 ≤ b.1)
+  "{ " ++ joinWith " , " (s.map (fun p => p.1 ++ "=" ++ p.2)) ++ " }"
+
+def showDict (d : Dict) (extra : List (String × String) := []) : String :=
+  showEntries (d.map (fun p => (p.1, showVal p.2)) ++ extra)
+
+def showTermInfo (i : TermInfo) : String :=
+  match i.sub with
+  | none => showDict i.d
+  | some subs => showDict i.d [("terms", "< " ++ joinWith " " (subs.map (fun d => showDict d)) ++ " >")]
+
+def showListInfo (i : ListInfo) : String :=
+  showEntries [("term_type", "s:term_list"), ("verbose", showVal i.verbose),
+               ("terms", "< " ++ joinWith " " (i.terms.map showTermInfo) ++ " >")]
+
+/-! ## the machine -/
+
+inductive Objct
+  | term (t : Term)
+  | tlist (l : TermList)
+  | gam (g : Gam)
+
+structure St where
+  env : Array Objct
+  out : List String     -- reversed
+
+def argToList (env : Array Objct) : Arg → Except Err (Term ⊕ List Term)
+  | .reg i =>
+    match env[i]? with
+    | some (.term t) => .ok (.inl t)
+    | some (.tlist l) => .ok (.inr l.terms)
+    | some (.gam _) => .error .value
+    | none => .error .unsupported
+  | .feat _ => .error .value
+  | .junk => .error .value
+
+def argsToList (env : Array Objct) : List Arg → Except Err (List (Term ⊕ List Term))
+  | [] => .ok []
+  | a :: r => do
+      let x ← argToList env a
+      let xs ← argsToList env r
+      .ok (x :: xs)
+
+def argToTe (env : Array Objct) : Arg → Except Err TeArg
+  | .reg i =>
+    match env[i]? with
+    | some (.term (.atom a)) => .ok (.term a)
+    | some (.term (.tensor _ _)) => .ok .tensor
+    | _ => .error .unsupported
+  | .feat s => .ok (.feat s)
+  | .junk => .error .unsupported
+
+def argsToTe (env : Array Objct) : List Arg → Except Err (List TeArg)
+  | [] => .ok []
+  | a :: r => do
+      let x ← argToTe env a
+      let xs ← argsToTe env r
+      .ok (x :: xs)
+
+def kwToDict : List (String × Tree) → Except Err Dict
+  | [] => .ok []
+  | (k, v) :: r =>
+    match v.toVal? with
+    | some x => do let r' ← kwToDict r; .ok ((k, x) :: r')
+    | none => .error .unsupported
+
+def treeToVal (t : Tree) : Except Err Val :=
+  match t.toVal? with
+  | some v => .ok v
+  | none => .error .unsupported
+
+/-- result of one instruction: the new environment and the observation -/
+def exec (env : Array Objct) : Instr → Except Err (Array Objct × String)
+  | .atom k kw => do
+      let d ← kwToDict kw
+      let a ← construct k d
+      .ok (env.push (.term (.atom a)), "ok")
+  | .te args b v kw => do
+      let tas ← argsToTe env args
+      let b ← treeToVal b
+      let v ← treeToVal v
+      let t ← mkTensor tas b v kw
+      .ok (env.push (.term t), "ok")
+  | .tl v args => do
+      let xs ← argsToList env args
+      .ok (env.push (.tlist (TermList.mk' xs v)), "ok")
+  | .add a b => do
+      let x ← argToList env a
+      let y ← argToList env b
+      .ok (env.push (.tlist (TermList.add x y)), "ok")
+  | .gam t fi v kw => do
+      let spec ← match t with
+        | .auto => pure TermsSpec.auto
+        | .none => pure TermsSpec.none
+        | .reg i =>
+          match env[i]? with
+          | some (.term t) => pure (TermsSpec.list (TermList.mk' [.inl t] false))
+          | some (.tlist l) => pure (TermsSpec.list l)
+          | _ => .error .unsupported
+      let g ← Gam.init spec fi v kw
+      .ok (env.push (.gam g), "ok")
+  | .get r name =>
+    match env[r]? with
+    | some (.term t) => do let x ← t.getattr name; .ok (env, "ok " ++ showTree x)
+    | some (.tlist l) => do let x ← l.getattr name; .ok (env, "ok " ++ showTree x)
+    | some (.gam g) => do let x ← g.getattr name; .ok (env, "ok " ++ showTree x)
+    | none => .error .unsupported
+  | .set r name v =>
+    match env[r]? with
+    | some (.term t) => do let t' ← t.setattr name v; .ok (env.set! r (.term t'), "ok")
+    | some (.tlist l) => do let l' ← l.setattr name v; .ok (env.set! r (.tlist l'), "ok")
+    | some (.gam g) => do let g' ← g.setattr name v; .ok (env.set! r (.gam g'), "ok")
+    | none => .error .unsupported
+  | .getp r deep =>
+    match env[r]? with
+    | some (.term (.atom a)) => .ok (env, "ok " ++ showDict (getParams a.d deep))
+    | some (.term (.tensor d _)) =>
+      .ok (env, "ok " ++ showDict (getParams d deep) (if deep then [("_terms", "<obj>")] else []))
+    | some (.tlist l) => .ok (env, "ok " ++ showDict (getParams l.d deep) (if deep then [("_terms", "<obj>")] else []))
+    | some (.gam g) => .ok (env, "ok " ++ showEntries (g.own.map (fun p => (p.1, showTree p.2))))
+    | none => .error .unsupported
+  | .setp r deep force kw =>
+    match env[r]? with
+    | some (.term t) => do let t' ← t.setParams deep force kw; .ok (env.set! r (.term t'), "ok")
+    | some (.tlist l) => do let l' ← l.setParams deep force kw; .ok (env.set! r (.tlist l'), "ok")
+    | _ => .error .unsupported
+  | .info r =>
+    match env[r]? with
+    | some (.term t) => .ok (env, "ok " ++ showTermInfo t.info)
+    | some (.tlist l) => .ok (env, "ok " ++ showListInfo l.info)
+    | _ => .error .unsupported
+  | .rebuild r =>
+    match env[r]? with
+    | some (.term t) => do let t' ← Term.fromInfo t.info; .ok (env.set! r (.term t'), "ok")
+    | some (.tlist l) => do let l' ← TermList.fromInfo l.info; .ok (env.set! r (.tlist l'), "ok")
+    | _ => .error .unsupported
+  | .copy r =>
+    match env[r]? with
+    | some _ => .ok (env, "ok")
+    | none => .error .unsupported
+  | .validate r =>
+    match env[r]? with
+    | some (.term t) => do let t' ← t.validate; .ok (env.set! r (.term t'), "ok")
+    | some (.tlist l) => do
+        let ts ← l.terms.mapM Term.validate
+        .ok (env.set! r (.tlist { l with terms := ts }), "ok")
+    | _ => .error .unsupported
+  | .fit r data =>
+    match env[r]? with
+    | some (.gam g) => do let g' ← g.fit data; .ok (env.set! r (.gam g'), "ok")
+    | _ => .error .unsupported
+  | .compile r data =>
+    match env[r]? with
+    | some (.term t) => do let t' ← compileTerm data t; .ok (env.set! r (.term t'), "ok")
+    | some (.tlist l) => do let l' ← l.compile data; .ok (env.set! r (.tlist l'), "ok")
+    | _ => .error .unsupported
+
+def runProgram : Array Objct → List Instr → List String → List String
+  | _, [], out => out.reverse
+  | env, i :: r, out =>
+    match exec env i with
+    | .ok (env', obs) => runProgram env' r (obs :: out)
+    | .error e => (showErr e :: out).reverse
+
+/-- operations of the C14 model driver -/
 def handle : List String → Option String
+  | "run" :: rest => do
+      let prog ← pProgram (rest.length + 1) rest
+      some (joinWith " ; " (runProgram #[] prog []))
+  -- `dedup <k> <key_1> … <key_k>` : positions kept by `dedup` on integer keys
+  | "dedup" :: rest => do
+      let ks ← parseInts? rest
+      let idx := (List.range ks.length).zip ks
+      some (joinWith " " ((dedup (fun (p : Nat × Int) => p.2) idx).map (fun p => toString p.1)))
+  -- `size <tree>` : `np.atleast_1d(x).size` and the flattened length
+  | "size" :: rest => do
+      let (t, r) ← pTree rest
+      if r ≠ [] then none else
+      some ((match t.npSize with | .ok n => toString n | .error e => showErr e) ++ " " ++ toString t.flatSize)
   | _ => none
 end PyGam.Drv.C14
